@@ -191,6 +191,58 @@ def oracle(ctx, n_real, n_int, strings):
         if any(c in badi for c in s) and ri != ('none',):
             ctx.failure('bad-char', 'fortran_int:bad-char', {'text': s}, repr(ri), 'None')
     ctx.oracle_cases('string-sweep', n)
+    call_order(ctx, strings)
+
+
+def call_order(ctx, strings):
+    """The readers are functions of (text, caller's blank value) only: the same text read through
+    the differently configured entry points (explicit blank values, the defaults 0.0 / 0, the
+    blank_value=None partials fortran_read_float / fortran_read_int used by t2incon and the
+    fortran read-function dictionary), in every order within one process, gives each caller its own
+    blank value on blank fields and the same value as a first call on everything else."""
+    import fixed_format_file as fff
+    rng = ctx.rng
+    blanks = ['', ' ', '     ', '\t', ' \n', ' ' * 10, ' ' * 20]
+    others = [s for s in strings if s.strip()]
+    sample = blanks + [rng.choice(others) for _ in range(400)] if others else blanks
+    fdict = getattr(fff, 'fortran_read_function', {})
+    readers = [('fortran_float(s)', lambda s: fff.fortran_float(s), 0.0, 'f'),
+               ('fortran_float(s, "A")', lambda s: fff.fortran_float(s, 'A'), 'A', 'f'),
+               ('fortran_float(s, blank_value=-1.5)', lambda s: fff.fortran_float(s, blank_value=-1.5), -1.5, 'f'),
+               ('fortran_read_float(s)', lambda s: fff.fortran_read_float(s), None, 'f'),
+               ('fortran_int(s)', lambda s: fff.fortran_int(s), 0, 'i'),
+               ('fortran_int(s, "B")', lambda s: fff.fortran_int(s, 'B'), 'B', 'i'),
+               ('fortran_int(s, blank_value=7)', lambda s: fff.fortran_int(s, blank_value=7), 7, 'i'),
+               ('fortran_read_int(s)', lambda s: fff.fortran_read_int(s), None, 'i')]
+    if 'e' in fdict: readers.append(("fortran_read_function['e'](s)", lambda s: fdict['e'](s), None, 'f'))
+    if 'd' in fdict: readers.append(("fortran_read_function['d'](s)", lambda s: fdict['d'](s), None, 'i'))
+
+    def canon(v):
+        if isinstance(v, float): return ('f', bits(v)) if v == v else ('nan',)
+        return ('v', repr(v))
+    n = 0
+    for s in sample:
+        first = {}
+        for rep in range(3):
+            order = list(range(len(readers)))
+            rng.shuffle(order)
+            for k in order:
+                name, fn, blank, kind = readers[k]
+                n += 1
+                try: got = canon(fn(s))
+                except Exception as e: got = ('raise', type(e).__name__)
+                ctx.count(('order', s, name, rep), nontrivial=(rep == 0))
+                if not s.strip():
+                    if got != canon(blank):
+                        ctx.failure('call-order', 'fortran_read:blank-value-not-the-callers',
+                                    {'text': s, 'call': name, 'earlier_calls_in_process': [readers[j][0] for j in order[:order.index(k)]]},
+                                    repr(got), "the caller's blank value %r" % (blank,))
+                else:
+                    ref = first.setdefault(kind, got)
+                    if got != ref:
+                        ctx.failure('call-order', 'fortran_read:depends-on-earlier-calls', {'text': s, 'call': name},
+                                    repr(got), 'the value %r every other entry point returns for this text' % (ref,))
+    ctx.oracle_cases('call-order', n, readers=len(readers), texts=len(sample))
 
 
 def run(ctx):
@@ -236,6 +288,9 @@ def replay(ctx, data):
     f = fff.fortran_int if key.startswith('fortran_int') else fff.fortran_float
     got = impl_value(f, text, 'BLANK' if ('blank' in key or 'raises' in key or 'compat' in key or 'bad' in key) else 0)
     print('replay: %s(%r) -> %r ; required: %s' % (f.__name__, text, got, req))
+    if key.startswith('fortran_read:'):
+        call_order(ctx, [text, '1.5', '12'])
+        return bool(ctx.new_failures)
     if 'raises' in key: return got[0] == 'raise'
     if 'rendering' in key:
         try: want = float(req.split(' ', 1)[1]) if req.startswith('float') else int(req.split(' ', 1)[1])
